@@ -831,7 +831,8 @@ From RU Require Import Proofs.C01_EqAsm.
    (non-special) | special non-file scheme | no scheme (failure on both sides);  base: '#' | '?' | empty
    reference | opaque-base failure | the three relative-reference classes against a non-special base | a
    reference with a scheme of its own that makes both sides ignore the base (in_class_abs_base, see the block
-   'references with a scheme of their own' below) and that is in a no-base class.
+   'references with a scheme of their own' below) and that is in a no-base class | the three scheme-less
+   reference classes against a special non-file base with a host (in_class_relative_s, block 'special bases').
    It contains in_proved_class2 (C01_class3_contains_class2).
    ONE base relation: base_rel3 = no base on both sides, or a pair in good_base = `related` and spec_base_ok
    (lower-case scheme, no '/' inside a path segment of the Standard's record).
@@ -1195,4 +1196,120 @@ Example C01_own_scheme_nonvacuous :
          | _, _ => False end
   | _, _ => False
   end.
+Proof. vm_compute. repeat split. Qed.
+
+(* ===== special bases (task c01asm) ===== *)
+From RU Require Import Proofs.C01_EqSpBase.
+
+(* Scheme-less references against a `related` base with a special non-file scheme (http, https, ws, wss, ftp):
+   the Standard's no scheme -> relative -> relative slash states for a special base ('\' counts as '/'),
+   then the special authority ignore slashes / authority states, or the special path state ('/' and '\' as
+   separators) on the segments kept of the base; parser.rs: parse_relative with SchemeType::SpecialNotFile -
+   after_double_slash on "scheme:" of the base, resp. pop_path / parse_path / with_query_and_fragment. *)
+
+(* (c) two leading '/' or '\' (any mix), then any number more: "//host", "\\host", "/\/host" ... - the
+   authority is parsed with the scheme of the base exactly as in C01_eq_special.  Base: any `related` pair,
+   Standard record not opaque, special, not file, scheme lower-case.  Host functions abstract,
+   host_agree_sp on the one string rel_host_text_s input.  Only exclusion: F-C01-9 in the path. *)
+Theorem C01_eq_rel_authority_s : forall dbg hp hpo hd shp shs input b sb,
+  usv_list input -> related dbg shs b sb -> scheme_canon (su_scheme sb) = true ->
+  in_class_rel_authority_s sb input = true ->
+  host_agree_sp hp hd shp shs (rel_host_text_s input) ->
+  agree_rel_strict dbg shs (parse_url dbg hp hpo hd None (Some b) input) (spec_basic_url_parse shp input (Some sb)).
+Proof. exact class_rel_authority_s. Qed.
+Print Assumptions C01_eq_rel_authority_s.
+
+(* (a) exactly one leading '/' or '\': the authority of the base is kept byte for byte, the path replaced.
+   sp_base_ok sb (inside the recogniser): not opaque, special, not file, and the Standard's record HAS a host -
+   true of every parse result with a special scheme. *)
+Theorem C01_eq_rel_abs_s : forall dbg hp hpo hd shp shs input b sb,
+  usv_list input -> related dbg shs b sb -> scheme_canon (su_scheme sb) = true ->
+  in_class_rel_abs_s sb input = true ->
+  exists su, spec_basic_url_parse shp input (Some sb) = BDone su /\ spec_base_ok su = true
+    /\ agree_rel_strict dbg shs (parse_url dbg hp hpo hd None (Some b) input) (BDone su).
+Proof. exact class_rel_abs_s. Qed.
+Print Assumptions C01_eq_rel_abs_s.
+
+(* (b) path-relative: pop_path on the serialized base path = the Standard's shorten (never a drive letter
+   exception: the scheme is not file), then the special path state on the merged path *)
+Theorem C01_eq_rel_path_s : forall dbg hp hpo hd shp shs input b sb,
+  usv_list input -> related dbg shs b sb -> spec_base_ok sb = true ->
+  in_class_rel_path_s sb input = true ->
+  exists su, spec_basic_url_parse shp input (Some sb) = BDone su /\ spec_base_ok su = true
+    /\ agree_rel_strict dbg shs (parse_url dbg hp hpo hd None (Some b) input) (BDone su).
+Proof. exact class_rel_path_s. Qed.
+Print Assumptions C01_eq_rel_path_s.
+
+(* coverage: against a good_base pair whose Standard record meets sp_base_ok every scheme-less reference
+   outside Known_C01 is in in_proved_class3 (the exclusion F-C01-9 is Known_C01 class 2; backslashes and
+   ":@" need no exclusion for special schemes) *)
+Theorem C01_class3_complete_special_base : forall dbg shs b sb input,
+  good_base dbg shs b sb -> sp_base_ok sb = true ->
+  spec_scheme (spec_clean input) = None -> known_c01 (Some b) input = 0 ->
+  in_proved_class3 (Some sb) input = true.
+Proof. exact special_base_covers. Qed.
+Print Assumptions C01_class3_complete_special_base.
+
+Theorem C01_statement_special_base : forall dbg hp hpo hd shp shs b sb input,
+  usv_list input -> good_base dbg shs b sb -> sp_base_ok sb = true ->
+  spec_scheme (spec_clean input) = None -> known_c01 (Some b) input = 0 ->
+  host_hyp3 hp hpo hd shp shs (Some sb) input ->
+  agree_good dbg shs (parse_url dbg hp hpo hd None (Some b) input) (spec_basic_url_parse shp input (Some sb)).
+Proof. exact statement_special_base. Qed.
+Print Assumptions C01_statement_special_base.
+
+Theorem C01_statement_special_base_model : forall dbg idna, IdnaOK idna -> forall b sb input,
+  usv_list input -> good_base dbg spec_host_serializer b sb -> sp_base_ok sb = true ->
+  spec_scheme (spec_clean input) = None -> known_c01 (Some b) input = 0 ->
+  agree_good dbg spec_host_serializer
+    (parse_url dbg (host_parse idna) host_parse_opaque host_display None (Some b) input)
+    (spec_basic_url_parse (spec_host_parser idna) input (Some sb)).
+Proof. exact statement_special_base_model. Qed.
+Print Assumptions C01_statement_special_base_model.
+
+(* non-vacuity: the parse result of "http://example.com/a/b/c?q" as base (sp_base_ok holds of it);
+   "\x\..\y" -> http://example.com/y ;  "../d/./e#f" -> http://example.com/a/d/e#f ;
+   "/\h.x:80\p" -> http://h.x/p  (default port dropped, host query of kind isOpaque = false);
+   all in in_proved_class3 and outside Known_C01, both sides agree.  The exclusion is necessary: against
+   http://example.com/C|/x the reference "../y" is inside Known_C01 (class 2) and the sides do differ. *)
+Example C01_special_base_nonvacuous :
+  let idna := ex_idna_clean in
+  let shp := spec_host_parser idna in
+  let P base i := parse_url true (host_parse idna) host_parse_opaque host_display None base i in
+  let S sbase i := spec_basic_url_parse shp i sbase in
+  let i0 := [104; 116; 116; 112; 58; 47; 47; 101; 120; 97; 109; 112; 108; 101; 46; 99; 111; 109; 47; 97; 47; 98; 47; 99; 63; 113] in
+  let i1 := [92; 120; 92; 46; 46; 92; 121] in
+  let i2 := [46; 46; 47; 100; 47; 46; 47; 101; 35; 102] in
+  let i3 := [47; 92; 104; 46; 120; 58; 56; 48; 92; 112] in
+  let j0 := [104; 116; 116; 112; 58; 47; 47; 101; 120; 97; 109; 112; 108; 101; 46; 99; 111; 109; 47; 67; 124; 47; 120] in
+  let j1 := [46; 46; 47; 121] in
+  match P None i0, S None i0 with
+  | POk u0, BDone su0 =>
+      sp_base_ok su0 = true
+      /\ in_proved_class3 (Some su0) i1 = true /\ in_proved_class3 (Some su0) i2 = true /\ in_proved_class3 (Some su0) i3 = true
+      /\ known_c01 (Some u0) i1 = 0 /\ known_c01 (Some u0) i2 = 0 /\ known_c01 (Some u0) i3 = 0
+      /\ class_host_query (Some su0) i3 = Some (false, [104; 46; 120])
+      /\ match P (Some u0) i1, S (Some su0) i1 with
+         | POk u, BDone su => q_href u = [104; 116; 116; 112; 58; 47; 47; 101; 120; 97; 109; 112; 108; 101; 46; 99; 111; 109; 47; 121]
+                              /\ api_of_model true u = Some (spec_api_list spec_host_serializer su)
+         | _, _ => False end
+      /\ match P (Some u0) i2, S (Some su0) i2 with
+         | POk u, BDone su => q_href u = [104; 116; 116; 112; 58; 47; 47; 101; 120; 97; 109; 112; 108; 101; 46; 99; 111; 109; 47; 97; 47; 100; 47; 101; 35; 102]
+                              /\ api_of_model true u = Some (spec_api_list spec_host_serializer su)
+         | _, _ => False end
+      /\ match P (Some u0) i3, S (Some su0) i3 with
+         | POk u, BDone su => q_href u = [104; 116; 116; 112; 58; 47; 47; 104; 46; 120; 47; 112]
+                              /\ api_of_model true u = Some (spec_api_list spec_host_serializer su)
+         | _, _ => False end
+  | _, _ => False
+  end
+  /\ match P None j0, S None j0 with
+     | POk v0, BDone sv0 =>
+         known_c01 (Some v0) j1 = 2 /\ in_proved_class3 (Some sv0) j1 = false
+         /\ match P (Some v0) j1, S (Some sv0) j1 with
+            | POk u, BDone su => q_href u = [104; 116; 116; 112; 58; 47; 47; 101; 120; 97; 109; 112; 108; 101; 46; 99; 111; 109; 47; 67; 124; 47; 121]
+                                 /\ get_href spec_host_serializer su = [104; 116; 116; 112; 58; 47; 47; 101; 120; 97; 109; 112; 108; 101; 46; 99; 111; 109; 47; 121]
+            | _, _ => False end
+     | _, _ => False
+     end.
 Proof. vm_compute. repeat split. Qed.
